@@ -326,6 +326,11 @@ struct _spawn_future_op_base {
         while (!evt_.ready())
           ;
 
+        // the operation may have replaced value with error while storing its
+        // result (see _spawn_future_receiver::set_value), so the state read
+        // before synchronizing with evt_ may be stale
+        state = state_.load(std::memory_order_relaxed);
+
         // having synchronized with evt_, we can now clean up
         deleter_(this, state);
 
